@@ -11,22 +11,33 @@ KEYSETS = {
     'rsa': ('rsa2048a', []), 'dsa': ('dsa1024', []), 'ecdsa': ('ecdsa_p256a', []), 'eddsa': ('ed25519a', []),
     'eddsa+ecdh': ('ed25519a', ['cv25519a']), 'rsa+subs': ('rsa2048a', ['rsa2048b', 'ed25519c']), 'ecdsa+ecdh': ('ecdsa_p384a', ['ecdh_p384a', 'ecdh_k256a']),
     'dsa+rsa': ('dsa2048', ['rsa1024b']),
+    # ECDH subkeys whose key-derivation parameters (RFC 6637 section 9: hash, wrap cipher - part of the public-key packet) are not PGPy's per-curve defaults
+    'eddsa+ecdh-kdf': ('ed25519a', ['cv25519a@10.9', 'ecdh_p384a@9.9']),
 }
 PASSES = [('ascii', 'a'), ('ascii40', 'The quick brown fox jumps over lazy dogs.'), ('utf8', 'pässwörd 密碼 \U0001F511'), ('long', 'x' * 1000)]
 HASH_ID = {'MD5': 1, 'SHA1': 2, 'RIPEMD160': 3, 'SHA256': 8, 'SHA384': 9, 'SHA512': 10, 'SHA224': 11}
+
+
+def sub_raw(spec):
+    """'name' or 'name@hash.cipher' (ECDH key-derivation parameters) -> raw dict"""
+    name, _, kdf = spec.partition('@')
+    r = K.raw(name, K.T0)
+    if kdf:
+        r = dict(r, kdf=tuple(int(x) for x in kdf.split('.')))
+    return r
 
 
 def build(ks, uid=True):
     """Fresh unprotected private key + list of raw dicts [(raw, is_sub)]."""
     from pgpy.constants import KeyFlags
     prim, subs = KEYSETS[ks]
-    subspec = []
+    key, raw = K.pgpy_cert(prim, uid='Key Holder <holder@example.org>')
+    raws = [raw]
     for s in subs:
-        r = K.raw(s, K.T0)
+        r = sub_raw(s)
         usage = {KeyFlags.EncryptCommunications} if r['alg'] == 'ecdh' or s == 'rsa1024b' else {KeyFlags.Sign}
-        subspec.append((s, usage))
-    key, raw = K.pgpy_cert(prim, uid='Key Holder <holder@example.org>', subkeys=subspec)
-    raws = [raw] + [K.raw(s, K.T0) for s in subs]
+        key.add_subkey(K.pgpy_secret(r), usage=usage, created=K.dt(K.T0 + 1))
+        raws.append(r)
     return key, raws
 
 
@@ -342,6 +353,29 @@ class Prop(object):
                 out = bytes(key)
                 if out != blob and wire.read_packet(out)['body'] != body:
                     probs.append('protected key re-serialises differently (%d -> %d octets)' % (len(blob), len(out)))
+                # re-protection of a key that arrived in this form: unlock, protect with another passphrase and cipher, leave the scope, export - the
+                # reference opens the export with the new passphrase (and not with the old one), PGPy unlocks it again
+                if not probs and raw['alg'] != 'elgamal':
+                    from pgpy.constants import SymmetricKeyAlgorithm, HashAlgorithm
+                    from mc import recips as R
+                    R.set_s2k_count(0)
+                    with key.unlock(pw):
+                        key.protect('new passphrase', SymmetricKeyAlgorithm.AES128, HashAlgorithm.SHA256)
+                    r.transitions += 2
+                    out2 = bytes(key)
+                    try:
+                        _p, got2, info2 = renc.unprotect_secret(wire.read_packet(out2)['body'], b'new passphrase')
+                        if got2 != rkeys.secret_ints(raw):
+                            probs.append('after re-protection the reference recovers other secret integers')
+                    except Exception as e:
+                        probs.append('after re-protection with a new passphrase the reference cannot open the export: %r' % (e,))
+                    try:
+                        with key.unlock('new passphrase'):
+                            km = A.key_material(key)
+                            if [int(getattr(km, f)) for f in km.__privfields__] != rkeys.secret_ints(raw):
+                                probs.append('after re-protection PGPy unlocks other secret integers')
+                    except Exception as e:
+                        probs.append('after re-protection PGPy cannot unlock its own key: %r' % (e,))
                 oc = 'ok' if not probs else 'violation'
             except Exception as e:
                 oc = 'exception'
